@@ -132,7 +132,7 @@ def check_field_headers(chk, quick):
     maxlen = 4 if quick else 6
     alphabet = IDENT + [ord(".")]
     for shape, nvar in shapes:
-        for slot in (["get"], ["post"], ["custom"], ["put", "patch"]):
+        for slot in (["get"], ["post"], ["custom"], ["put"], ["patch"], ["delete"]):
             t0 = time.time()
             leaves = 0
             cex = None
@@ -144,7 +144,9 @@ def check_field_headers(chk, quick):
                 uri = fill(shape, vs)
 
                 def mk():
-                    http = NS(get="", put="", post="", delete="", patch="", custom=NS(path=""))
+                    # stand-in for google.api.HttpRule: the verbs form the oneof `pattern` (WhichOneof supported too)
+                    http = NS(get="", put="", post="", delete="", patch="", custom=NS(path="", kind="HEAD"), body="",
+                              additional_bindings=[], WhichOneof=lambda _n, slot=slot: slot[0])
                     for k, s in enumerate(slot):
                         val = uri if k == 0 else bstr.S("/other/{zzz}")
                         if s == "custom":
@@ -191,7 +193,8 @@ def py_uri_variables(uri):
 def real_field_headers(uri, slot):
     from google.api import annotations_pb2
     from gapic.schema import wrappers
-    http = NS(get="", put="", post="", delete="", patch="", custom=NS(path=""))
+    http = NS(get="", put="", post="", delete="", patch="", custom=NS(path="", kind="HEAD"), body="",
+              additional_bindings=[], WhichOneof=lambda _n: slot[0])
     for k, s in enumerate(slot):
         val = uri if k == 0 else "/other/{zzz}"
         if s == "custom":
